@@ -33,11 +33,13 @@ def gen_cases(ctx, T, maxp, nsample, seed, ks="{0,1,2,4}"):
     return cases
 
 
-def quarantine(n, pole, T, rng):
-    """n points near a pole (>= 80 degrees of arc from every equator ring position), times spread over the window."""
+def quarantine(n, pole, T, rng, sparse=False):
+    """n points near a pole (>= 80 degrees of arc from every equator ring position), times spread over the window -- over
+    all its ticks, or (sparse) over a random half of them, so that time bins need not begin with a point."""
     lat = pole * (88.0 + rng.random(n) * 1.9)
     lon = rng.random(n) * 360.0 - 180.0
-    t = np.array([cm.BASE + int(x) * cm.TICK for x in rng.integers(0, T, n)], dtype="datetime64[ns]")
+    ticks = np.sort(rng.choice(T, size=max(1, T // 2), replace=False)) if sparse else np.arange(T)
+    t = np.array([cm.BASE + int(x) * cm.TICK for x in ticks[rng.integers(0, len(ticks), n)]], dtype="datetime64[ns]")
     return t, lat, lon
 
 
@@ -90,8 +92,8 @@ def _one_call(collocator, P, S, row, conf, rng, emb):
     I, k, ws, we, _ = row
     extraP = extraS = None
     if conf.get("inflated"):
-        extraP = quarantine(1001, +1, conf["T"], rng)
-        extraS = quarantine(1001, -1, conf["T"], rng)
+        extraP = quarantine(1001, +1, conf["T"], rng, conf.get("sparse_ticks", False))
+        extraS = quarantine(1001, -1, conf["T"], rng, conf.get("sparse_ticks", False))
     # grids whose second pixel is a valid (quarantined) point: only where quarantine is sound (equator embedding, k <= 1)
     q = conf["shape"] in ("grid", "grid2") and conf["embedding"] == "equator" and k <= 1 and conf.get("second_pixel_valid", True)
     dp = cm.dataset(P, emb, conf["shape"], extra=extraP, qpole=+1 if q else None)
@@ -173,7 +175,7 @@ def replay_inflated(col, item):
     rows = sorted(rows, key=lambda r: (len(r[4]) == 0, (r[0] + r[1] + r[2] + n) % 5))[:2]
     for row in rows:
         conf = {"embedding": "equator", "shape": ["linear", "grid2", "grid"][n % 3], "sp": n % 5, "bin_factor": [1, 2, 0.5, 3, 0.25][n % 5], "magnitude_factor": 10,
-                "leaf_size": 40, "inflated": True, "T": T}
+                "leaf_size": 40, "inflated": True, "T": T, "sparse_ticks": n % 2 == 1}
         for swapped in (False, True):
             a, b = (S, P) if swapped else (P, S)
             try:
